@@ -1057,8 +1057,8 @@ class Program:
         if f.qual in cache:
             return cache[f.qual]
         ok = False
-        body = [b for b in f.node.body if not (
-            isinstance(b, ast.Expr) and isinstance(b.value, ast.Constant))]
+        from .util import inert_stmt
+        body = [b for b in f.node.body if not inert_stmt(b)]
         if len(f.params) == 1 and len(body) == 1 and isinstance(
                 body[0], ast.Return) and isinstance(body[0].value, ast.Call):
             c = body[0].value
